@@ -181,6 +181,16 @@ add("C10",
     "Dual multipliers from HiGHS (untrusted). Instances where no feasible (X, scales) exists are outside the property's premise and skipped (feasibility decided by an LP).",
     "Coq weak-duality certificate checker (linear rows, unbounded scale variables) + formulation lemmas", "DESIGN.md §5 C10, §3.2")
 
+add("C07",
+    "(F) excitation: |b/(1+b) - p/(1+p)| = |b-p|/((1+b)(1+p)); error >= 0 and zero iff captures agree; every point with error <= s lies in an explicit polyhedron, so a Farkas "
+    "certificate for that polyhedron proves that EVERY in-bound intensity vector has error > s. (F over R) Poisson: the rational Frank-Wolfe gap at the returned point bounds its "
+    "negative-log-likelihood excess over EVERY in-bound vector with positive capture (from ln t <= t - 1); the likelihood is minimised exactly at capture = target. Verdicts "
+    "(bounds, positivity, prediction, gap / Farkas certificate at error - 1e-3, in-gamut reproduction by poisson, excitation and gaussian) evaluated in the Coq VM on every fit.",
+    TRUST + "Axioms for the Poisson theorems: the standard library's real-number axioms + Classical_Prop.classic (stdlib ln/exp), as printed by Props/C07.v. Solvers (CLARABEL, SCS "
+    "bisection) opaque; Farkas multipliers from HiGHS (untrusted). The Poisson certificate needs a bounded box: the asserted stream uses finite bounds (infinite ub not covered). "
+    "The returned point is clipped into the box (by at most 1% of the bound range with default settings) before the certificates are evaluated.",
+    "Coq proof over Q and R (convexity via ln t <= t-1, level-set polyhedron) + gap / Farkas certificate checkers run by vm_compute", "DESIGN.md §5 C07")
+
 NOT_APPLICABLE = []
 ALL = ["C%02d" % i for i in range(1, 21)]
 
